@@ -69,7 +69,7 @@ SINGLE_LO, SINGLE_HI = 2.0 ** -30, 2.0 ** 30  # the same for images whose transf
 SINGLE = ("f4", "f2")  # np.fft keeps float32 (and computes float16 in float32): complex64 transforms
 MARGIN_ABS = Fraction(1, 10 ** 9)  # of the product of the 1-norms, double precision transforms
 MARGIN_ABS_SINGLE = Fraction(1, 10 ** 4)  # the same for single precision transforms (eps 6e-8, log2 N <= 12)
-DTYPES = ("f8", "f4", "f2", ">f8", "g", "i8", "i4", "i2", "i1", "u1", "u2", ">i4", "?")
+DTYPES = ("f8", "f4", "f2", ">f8", "g", "i8", "i4", "i2", "i1", "u1", "u2", "u4", "u8", ">i4", "?")
 LAYOUTS = ("C", "F", "strided", "rev", "ro")
 ORDERS = ("ab", "ba", "aa", "bb")
 
@@ -640,6 +640,30 @@ class C12(Prop):
             case["scale"] = self.pick_scale(rng, kind)
         return case
 
+    def gen_counts(self, rng, d=None, dts=None, kind=None):
+        """integer images with large counts (pixels up to ~1e9 .. 1e10, both images of an integer dtype): the correlation
+        peak exceeds 2**63 while float64 still separates the maximum"""
+        d = d or rng.choice([1, 2, 2, 3])
+        hi = {1: 24, 2: 9, 3: 5}[d]
+        kind = kind or rng.choice(["signed", "positive", "sparse", "clipped", "binary"])
+        rel = rng.choice(["sub", "super", "overlap", "overlap", "equal", "far"])
+        sa, sb, t = [], [], []
+        for _ in range(d):
+            a, b, l = self.axis(rng, rel, rng.randint(2, hi), rng.randint(2, hi))
+            sa.append(a)
+            sb.append(b)
+            t.append(l)
+        if rel == "equal" and not any(t):
+            t[0] = rng.choice([-1, 1]) * rng.randint(1, max(1, (sa[0] - 1) // 2))
+        scale = rng.choice([{"dec": "1e9"}, {"dec": "3e9"} if kind == "binary" else {"dec": "7e8"}, {"pow2": 30}, {"pow2": 31}])
+        nonneg = kind in ("positive", "sparse", "binary")
+        dts = dts or rng.choice([("i8", "i8"), ("i8", "i8"), ("u8", "u8"), ("i8", "u8"), ("u4", "u4")] if nonneg else [("i8", "i8")])
+        lay = lambda: rng.choice(["C", "C", "F", "strided", "rev", "ro"])
+        extra = {"cls": "counts", "pres": {"a": {"dtype": dts[0], "layout": lay()}, "b": {"dtype": dts[1], "layout": lay()}}}
+        if rng.random() < 0.3:
+            extra["bg"] = "zero"
+        return self.assemble(rng, sa, sb, t, kind, rel, scale, extra)
+
     def gen_medium(self, rng, tier):
         """sizes between the small pairs and the long axes: transform lengths 30..1000 (1-D), 12..40 per axis (2-D),
         8..12 (3-D) - around 32, 64, 128, 256, 512 and well between them; any relation, both signs"""
@@ -689,6 +713,8 @@ class C12(Prop):
             return {"kind": "anchors", "a": a, "bs": bs}
         if rng.random() < (0.004 if tier == "quick" else 0.008):
             return self.gen_long(rng, tier)
+        if rng.random() < 0.03:
+            return self.gen_counts(rng)
         if rng.random() < 0.16:
             return self.gen_hist(rng, tier)
         if rng.random() < 0.04:
@@ -828,6 +854,11 @@ class C12(Prop):
                     if fmt == "f4":
                         ex["pres"] = {"a": {"dtype": "f4", "layout": "C"}, "b": {"dtype": "f4", "layout": "C"}}
                     yield self.assemble(rng, sa, sb, t, kind, rel, None, ex)
+        # integer images with large counts (correlation peak above 2**63), 1-3 D, signed / unsigned 64 bit and unsigned 32 bit
+        for i, (d, dts, kind) in enumerate(((1, ("i8", "i8"), "signed"), (2, ("i8", "i8"), "positive"), (2, ("u8", "u8"), "positive"),
+                                            (3, ("i8", "i8"), "signed"), (2, ("u4", "u4"), "binary"), (1, ("i8", "u8"), "sparse"),
+                                            (2, ("i8", "i8"), "clipped"), (2, ("i8", "i8"), "signed"))):
+            yield self.gen_counts(core.case_rng(0, self.id, "targeted-counts", i), d, dts, kind)
         # histories on one pair of array objects, refreshed in place between the calls
         rng = core.case_rng(0, self.id, "targeted-hist", 0)
         # a frame buffer that follows a feature on an empty background, a tile that holds the feature (2-D), ab every time
@@ -875,11 +906,14 @@ class C12(Prop):
         xf, yf = np.asarray(x, dtype=np.float64), np.asarray(y, dtype=np.float64)
         jx, jy = img_json(xf), img_json(yf)
         n1 = Fraction(float(np.abs(xf).sum())) * Fraction(float(np.abs(yf).sum()))
+        raw = None
         try:
             res = register.fft_register_offset(x, y)
             impl = [int(v) for v in res]
+            raw = res  # the very object returned (handed on to overlap_arrays as it is)
         except Exception as e:
             impl = {"raises": type(e).__name__, "msg": str(e)[:200]}
+        self._raw = raw
         if long:
             # whole lag box by the array twin; the model itself at the decisive lags, among them the true
             # translation and the implementation's answer
@@ -941,6 +975,8 @@ class C12(Prop):
         det, reps = {}, {}
         for name, x, y, want in parts:
             impl[name], model[name], spec[name], det[name], reps[name] = self.reg_part(ctx, register, x, y, want, single=single)
+            if name == "ab":
+                raw_ab = self._raw
             if det[name]:
                 feats.add(f"{name}:peak-at-truth" if reps[name]["at_truth"] else f"{name}:peak-not-at-truth(compared)")
                 if reps[name].get("truthHyp"):
@@ -965,15 +1001,26 @@ class C12(Prop):
             ma, mb = (xa, xb) if f4 else (a, b)
             if f4:
                 feats.add("merge:float32-arrays")
+            # the estimate is handed on AS RETURNED (the same object for all six merges in a row) and read again afterwards
+            est_obj = raw_ab if raw_ab is not None else tuple(impl["ab"])
             for (m, f), r in zip(MERGE_VARIANTS, rep["results"]):
                 try:
-                    res = register.overlap_arrays([ma, mb], [tuple(zero), tuple(impl["ab"])],
+                    res = register.overlap_arrays([ma, mb], [tuple(zero), est_obj],
                                                   fill=math.nan if f is None else f, mode=m)
                     impl["merge"].append({"shape": list(res.shape), "data": [fhex(v) for v in np.asarray(res, dtype=np.float64).ravel()]})
                 except Exception as e:
                     impl["merge"].append({"raises": type(e).__name__, "msg": str(e)[:200]})
                 model["merge"].append({"shape": r["shape"], "data": [qhex(v) for v in r["model"]]})
                 spec["merge"].append({"shape": r["specShape"], "data": [qhex(v) for v in r["spec"]]})
+            try:
+                impl["estimate-after-the-merges"] = [int(v) for v in est_obj]
+            except Exception as e:
+                impl["estimate-after-the-merges"] = {"raises": type(e).__name__}
+            model["estimate-after-the-merges"] = reps["ab"]["model"]
+            spec["estimate-after-the-merges"] = reps["ab"]["lag"]
+            feats.add("merge:estimate-object-handed-on-for-six-merges")
+            if any(l < 0 for l in t):
+                feats.add("merge:estimate-object-handed-on:negative-component")
             if "nan" in spec["merge"][0]["data"]:
                 feats.add("merge:uncovered-corner")
             for tp in case.get("tiny") or []:
@@ -984,6 +1031,7 @@ class C12(Prop):
             feats.add("merge-at-the-estimate:replace+mean x fill nan/0/finite")
         else:
             impl["merge"] = model["merge"] = spec["merge"] = MASK
+            impl["estimate-after-the-merges"] = model["estimate-after-the-merges"] = spec["estimate-after-the-merges"] = MASK
         if case.get("bg") == "zero":
             feats.add("zero-background")
         if det["ab"]:
@@ -1001,6 +1049,10 @@ class C12(Prop):
             for p in (pa, pb):
                 if p is not None:
                     feats |= {"dtype:" + p.get("dtype", "f8"), "layout:" + p.get("layout", "C")}
+            if (pa is not None and pb is not None and np.dtype(pa.get("dtype", "f8")).kind in "iu"
+                    and np.dtype(pb.get("dtype", "f8")).kind in "iu"
+                    and reps["ab"].get("max") is not None and unrat(reps["ab"]["max"]) >= 2 ** 63):
+                feats.add("integer-images:correlation-peak>=2^63")
             if any(l < 0 for l in t):
                 feats.add("negative-translation")
             if all(l == 0 for l in t):
